@@ -5,9 +5,9 @@
    correspondence only (the harness parses the very bytes it feeds to the decoder with an
    independent protowire walk and sends that tree).
 
-   Raw varints are Z in [0, 2^64).  Fixed32/fixed64 fields are outside the model: no OSM PBF
-   message defines one and the harness never writes one (protoscan v0.2.1 mis-skips a
-   fixed-width field that ends a message; third-party, see notes/C01_C08.md). *)
+   Raw varints are Z in [0, 2^64).  Fixed32/fixed64 fields only occur as unknown fields (no OSM PBF
+   message defines one); the decoder skips them (skipField, fix e98d69a: protoscan v0.2.1 mis-skips a
+   fixed-width field that ends a message), so a typed view of one is a wire-type error. *)
 From Coq Require Import ZArith List Bool.
 From Verif Require Import Base.Int64.
 Import ListNotations.
@@ -19,7 +19,9 @@ Inductive wval : Type :=
 | WVar (n : Z)                      (* wire type 0 *)
 | WPacked (l : list Z)              (* wire type 2 read through Message.Iterator *)
 | WStr (s : bytes)                  (* wire type 2, opaque *)
-| WMsg (m : list (Z * wval)).       (* wire type 2 read through MessageData *)
+| WMsg (m : list (Z * wval))        (* wire type 2 read through MessageData *)
+| WFix64 (n : Z)                    (* wire type 1 (only ever skipped: no OSM PBF field is fixed-width) *)
+| WFix32 (n : Z).                   (* wire type 5 *)
 
 Definition msg := list (Z * wval).
 
